@@ -18,7 +18,7 @@ MPG_PF = 0x25
 
 
 def correspondence(ctx):
-    return corr22.run(ctx, 40 if ctx.quick else 1500, 30 if ctx.quick else 1000, 11, n_lossy=0, n_mpg=250 if ctx.quick else 8000)
+    return corr22.run(ctx, ctx.n(40, 1500), ctx.n(30, 1000), 11, n_lossy=0, n_mpg=ctx.n(250, 8000))
 
 
 def ref_decode(data):
@@ -139,7 +139,10 @@ def network_case(rng):
                            f"dst {fdst:#x} format {ff}: groups of different destinations/formats combined")
                 pool.remove(s)
                 continue
-            s = min(exact, key=lambda s: s['t'])
+            # identical groups may have been submitted more than once: take a submission this frame is on time for
+            # (the most urgent one), only if there is none is the frame late for all of them
+            sub_ok = [s for s in exact if s['t'] <= t <= s['t'] + s['tl'] + slack + 1]
+            s = min(sub_ok or [s for s in exact if s['t'] <= t] or exact, key=lambda s: s['t'] + s['tl'])
             pool.remove(s)
             late = t - (s['t'] + s['tl'])
             if late > slack + 1:
@@ -158,7 +161,7 @@ def network_case(rng):
 
 def oracle(ctx, full):
     rng = random.Random(ctx.seed * 7907 + 11)
-    n = 150 if (ctx.quick and not full) else 6000
+    n = ctx.n(150, 6000, full)
     findings, evals, distinct, samples = [], 0, set(), []
     stat = dict(groups=0, frames=0, fbff=0, timer=0, limited=0)
     for _ in range(n):
